@@ -499,3 +499,103 @@ def register_add_node(reg):
         exc_ensures={"ValueError": dict(frame), "AssertionError": dict(frame)},
         notes="GFA.__setitem__'s isinstance(value, Node) test is not modelled (the value is the Node just built); logging is dropped",
     ))
+
+
+# ---- find_path.run (C14): one output record per requested path, in order ---------------------------------------------------------------
+FIND = "gaftools/cli/find_path.py"
+GFAOpaque = ObjT("GFA", ident=INT)
+GFAOpaque.name = "Obj<GFAOpaque>"
+
+
+def register_find_path(reg):
+    reg.add(Contract(file=GFA, func="GFA.extract_path", variant="#caller", params=dict(self=GFAOpaque, path=STR), returns=STR, trusted=True, pure=True,
+                     ufuns={"spelled": ([GFAOpaque, STR], STR)}, ensures={"def": "result == spelled(self, path)"},
+                     notes="caller view for find_path.run: the sequence spelled for a path is a function of (graph, path); what that function is, is GFA.extract_path's own contract"))
+    reg.add(Contract(
+        file=FIND, func="run", variant="#read-paths", fragment=("nodes = []", 3),
+        params=dict(graph=GFAOpaque, reader=ListT(STR)), locals=dict(nodes=ListT(STR), path_seqs=ListT(STR)), outputs=["nodes", "path_seqs"],
+        ufuns={"spelled": ([GFAOpaque, STR], STR), "strip": ([STR], STR)}, returns=NONE,
+        loops={1: Loop(index="it1", fingerprint="for line in reader", invariant={
+            "one-entry-per-line": "len(nodes) == it1 and len(path_seqs) == it1",
+            "entries": "forall(lambda k: implies(0 <= k < it1, nodes[k] == strip(reader[k]) and path_seqs[k] == spelled(graph, strip(reader[k]))))",
+        })},
+        ensures={
+            "one-entry-per-line-in-order": "len(nodes) == len(reader) and len(path_seqs) == len(reader) and "
+                                           "forall(lambda k: implies(0 <= k < len(reader), nodes[k] == strip(reader[k]) and path_seqs[k] == spelled(graph, strip(reader[k]))))",
+        },
+    ))
+    reg.add(Contract(
+        file=FIND, func="run", variant="#write-records", fragment=("if fasta:", 1),
+        params=dict(nodes=ListT(STR), path_seqs=ListT(STR), writer=ListT(STR), fasta=BOOL), modifies=["writer"], returns=NONE,
+        requires=["len(nodes) == len(path_seqs)", "len(writer) == 0"],
+        loops={
+            1: Loop(index="it1", fingerprint="for node, path_seq in zip(nodes, path_seqs)", invariant={
+                "two-lines-per-path": "len(writer) == 2 * it1",
+                "records": "forall(lambda k: implies(0 <= k < it1, writer[2 * k] == cat('>seq_', nodes[k]) and writer[2 * k + 1] == path_seqs[k]))"}),
+            2: Loop(index="it2", fingerprint="for node, path_seq in zip(nodes, path_seqs)", invariant={
+                "one-line-per-path": "len(writer) == it2",
+                "records": "forall(lambda k: implies(0 <= k < it2, writer[k] == path_seqs[k]))"}),
+        },
+        ensures={
+            "plain-one-record-per-path-in-order": "implies(not fasta, len(writer) == len(nodes) and forall(lambda k: implies(0 <= k < len(nodes), writer[k] == path_seqs[k])))",
+            "fasta-header-then-sequence-per-path-in-order": "implies(fasta, len(writer) == 2 * len(nodes) and forall(lambda k: implies(0 <= k < len(nodes), "
+                                                            "writer[2 * k] == cat('>seq_', nodes[k]) and writer[2 * k + 1] == path_seqs[k])))",
+        },
+    ))
+
+
+def register_neighbors_body(reg):
+    # the body of Node.neighbors; the positions that the caller view's Skolem function nbrpos stands for are given explicitly by ghost maps:
+    # kp1 / kp2 = position of an entry in the enumeration of self.start / self.end, sort_perm = where sorted() moved each element
+    reg.add(Contract(
+        file=GFA, func="Node.neighbors", variant="#body", params=dict(self=Node), returns=ListT(STR), types=dict(STR=STR, INT=INT), pure=True,
+        locals=dict(neighbors=ListT(STR)), ghost=dict(kp1=MapT(Edge, INT), kp2=MapT(Edge, INT), ks1=ListT(Edge), ks2=ListT(Edge), n1=INT, sort_perm=MapT(INT, INT), sort_perm_inv=MapT(INT, INT)),
+        ghost_at={"after:neighbors = [": "kp1 = keypos_n(0)\nkp2 = keypos_n(1)\nks1 = keyseq_n(0)\nks2 = keyseq_n(1)\nn1 = len(keyseq_n(0))"},
+        ensures={
+            # the entry each listed id comes from, by ghost witness (no existential)
+            "only-neighbours": "forall(lambda i: implies(0 <= i < len(result), ite(sort_perm_inv[i] < n1, "
+                               "ks1[sort_perm_inv[i]] in self.start and ks1[sort_perm_inv[i]][0] == result[i], "
+                               "ks2[sort_perm_inv[i] - n1] in self.end and ks2[sort_perm_inv[i] - n1][0] == result[i])))",
+            "start-side-neighbours-listed": "forall([STR, INT, INT], lambda b, s, ov: implies((b, s, ov) in self.start, "
+                                            "0 <= sort_perm[kp1[(b, s, ov)]] < len(result) and result[sort_perm[kp1[(b, s, ov)]]] == b))",
+            "end-side-neighbours-listed": "forall([STR, INT, INT], lambda b, s, ov: implies((b, s, ov) in self.end, "
+                                          "0 <= sort_perm[n1 + kp2[(b, s, ov)]] < len(result) and result[sort_perm[n1 + kp2[(b, s, ov)]]] == b))",
+        },
+    ))
+
+
+# ---- write_gfa, both output loops as one fragment (C07): all S lines precede all L lines, one S line per existing node in the given order ----
+def register_write_gfa_body(reg):
+    reg.add(Contract(file=GFA, func="Node.to_gfa_line", params=dict(self=Node, with_seq=BOOL), returns=LINE, trusted=True, pure=True, defaults={"with_seq": lambda eng: Val(z3.BoolVal(True), BOOL)},
+                     ensures={"s-line": "len(result) >= 3 and result[0] == 'S' and result[1] == self.id"},
+                     notes="caller view: an S line whose second field is the node id (tags and sequence: bounded stand-in / C16)"))
+    keep = "forall(lambda k: implies(0 <= k < b, same(f[k], F1[k])))"
+    llines = "forall(lambda k: implies(b <= k < len(f), f[k][0] == 'L'))"
+    edges_l = "forall(lambda k: implies(0 <= k < len(edges), edges[k][0] == 'L'))"
+    reg.add(Contract(
+        file=GFA, func="GFA.write_gfa", variant="#both-loops", fragment=("for n in sorted_set_of_nodes:", 2),
+        params=dict(self=GFAT, set_of_nodes=SetT(STR), sorted_set_of_nodes=ListT(STR), f=ListT(LINE)), modifies=["f"], returns=NONE,
+        ghost=dict(CNT=IMAP, b=INT, F1=ListT(LINE)), locals=dict(edges=ListT(LINE), tags=ListT(STR), edge=LINE), module_env={"E_DIR": E_DIR_value},
+        types=dict(STR=STR, INT=INT), ghost_at={"before:for n1 in sorted_set_of_nodes": "b = len(f)\nF1 = f"},
+        requires=["len(f) == 0", "forall(STR, lambda a: implies(a in self.nodes, self.nodes[a].id == a))",
+                  "CNT[0] == 0 and forall(lambda t: implies(0 <= t < len(sorted_set_of_nodes), CNT[t + 1] == CNT[t] + ite(sorted_set_of_nodes[t] in self.nodes, 1, 0)))",
+                  "forall(lambda t, u: implies(0 <= t < u <= len(sorted_set_of_nodes), CNT[t] + ite(sorted_set_of_nodes[t] in self.nodes, 1, 0) <= CNT[u])) and "
+                  "forall(lambda t: implies(0 <= t <= len(sorted_set_of_nodes), CNT[t] >= 0))"],
+        loops={
+            1: Loop(index="it1", fingerprint="for n in sorted_set_of_nodes", invariant={
+                "count": "len(f) == CNT[it1]",
+                "s-lines": "forall(lambda k: implies(0 <= k < len(f), f[k][0] == 'S'))",
+                "one-s-line-per-existing-node-in-order": "forall(lambda t: implies(0 <= t < it1 and sorted_set_of_nodes[t] in self.nodes, f[CNT[t]][1] == sorted_set_of_nodes[t]))",
+            }),
+            2: Loop(index="it2", fingerprint="for n1 in sorted_set_of_nodes", invariant={"s-lines-kept": keep, "l-lines": llines, "at-least-b": "len(f) >= b"}),
+            3: Loop(index="it3", fingerprint="for n in self.nodes[n1].start", invariant={"edges-are-l-lines": edges_l}),
+            4: Loop(index="it4", fingerprint="for n in self.nodes[n1].end", invariant={"edges-are-l-lines": edges_l}),
+            5: Loop(index="it5", fingerprint="for e in edges", invariant={"s-lines-kept": keep, "l-lines": llines, "at-least-b": "len(f) >= b"}),
+        },
+        ensures={
+            "all-s-lines-precede-all-l-lines": "b == CNT[len(sorted_set_of_nodes)] and b <= len(f) and forall(lambda k: implies(0 <= k < b, f[k][0] == 'S')) and "
+                                               "forall(lambda k: implies(b <= k < len(f), f[k][0] == 'L'))",
+            "one-s-line-per-existing-node-in-the-given-order": "forall(lambda t: implies(0 <= t < len(sorted_set_of_nodes) and sorted_set_of_nodes[t] in self.nodes, "
+                                                               "f[CNT[t]][1] == sorted_set_of_nodes[t]))",
+        },
+    ))
